@@ -319,12 +319,14 @@ def check_plan(out, c, plan, name, wf, clock):
             V('query_raised', exc=type(e).__name__, node=n)
             continue
         _bump(out, 'c14_queries')
-        if ps != set(tid[p] for p in pre[n]):
-            V('predecessor_query', node=n, got=sorted(ps),
-              expected=sorted(tid[p] for p in pre[n]), kind='returns_successors'
-              if ps == set(tid[s] for s in suc[n]) else 'other')
-        if ss != set(tid[s] for s in suc[n]):
-            V('successor_query', node=n, got=sorted(ss), expected=sorted(tid[s] for s in suc[n]))
+        # nodes without a task were reported above ('node_without_task'); compare what exists
+        exp_p = set(str(tid.get(p, '<no task for node %s>' % p)) for p in pre[n])
+        exp_s = set(str(tid.get(x, '<no task for node %s>' % x)) for x in suc[n])
+        if set(map(str, ps)) != exp_p:
+            V('predecessor_query', node=n, got=sorted(map(str, ps)), expected=sorted(exp_p),
+              kind='returns_successors' if set(map(str, ps)) == exp_s else 'other')
+        if set(map(str, ss)) != exp_s:
+            V('successor_query', node=n, got=sorted(map(str, ss)), expected=sorted(exp_s))
     # p in pred(t) <=> t in succ(p)
     try:
         P = {t.id: set(x.id for x in plan.get_task_predecessors(t)) for t in by_node.values()}
